@@ -17,28 +17,41 @@ def mk(name, mx, ie, nmsg, rdmax=2):
             "rdmax": rdmax, "rins": [1, 2]}
 
 
+# measured on the unchanged tree (transitions emitted, ids 1..3, ReadInflight(1|2)):
+#   capacity 2, 4 messages, id lists <= 2:  14 000 (size/off) .. 108 000 (expiry/instant) per configuration
+#   capacity 2, 4 messages, id lists <= 3:  14 000 .. 115 000;  all 21 configurations together 1.1 million
+#   capacity 3, 4 messages, id lists <= 2:  32 000 .. 365 000;  all 21 together 3.5 million
+#   capacity 3, 5 messages, id lists <= 2:  3-kind menu 160 000 .. 480 000, 4-kind menus 0.4 .. 1.9 million
+SMALL3 = [("expiry0", "off"), ("expiry0", "instant"), ("expiry0", "never"), ("size", "off"), ("size", "instant"),
+          ("size", "never"), ("rel", "off"), ("mixed", "off"), ("rel", "never"), ("qos", "off")]   # capacity 3: <= 140 000
+
+
 def plan(tier, seed):
     names = sorted(queue_lib.MENUS)
     ies = queue_lib.IES
     if tier == "quick":
         # three menus (rotating with the seed), each with a different in-flight expiry setting; capacity 2, 4 messages;
-        # one small capacity-3 configuration
+        # one small capacity-3 configuration; design-level check of one configuration
         tc = []
         for k in range(3):
             n = names[(seed * 3 + k) % len(names)]
             tc.append(mk(n, 2, ies[(seed + k) % 3], 4))
-        n3 = names[(seed * 3 + 3) % len(names)]
-        tc.append(mk(n3, 3, ies[(seed + 3) % 3], 4, rdmax=2))
+        n3, ie3 = SMALL3[seed % len(SMALL3)]
+        tc.append(mk(n3, 3, ie3, 4))
         design = [mk(names[seed % len(names)], 2, ies[seed % 3], 4)]
         return design, tc
     tc, design = [], []
     for i, n in enumerate(names):
         for j, ie in enumerate(ies):
             tc.append(mk(n, 2, ie, 4, rdmax=3))
-            # capacity 3 with 5 messages for a seed-dependent third of the (menu, setting) pairs, 4 messages for the rest
-            tc.append(mk(n, 3, ie, 5 if (i + j + seed) % 3 == 0 else 4, rdmax=2))
+            tc.append(mk(n, 3, ie, 4))
         design.append(mk(n, 2, ies[(i + seed) % 3], 4))
-        design.append(mk(n, 3, ies[(i + seed + 1) % 3], 4))
+    design.append(mk(names[seed % len(names)], 3, ies[(seed + 1) % 3], 4))
+    # 5 messages at capacity 3: the 3-kind menu with every setting, one seed-chosen 4-kind menu with one setting
+    for ie in ies:
+        tc.append(mk("rel", 3, ie, 5))
+    big = [n for n in names if n != "rel"]
+    tc.append(mk(big[seed % len(big)], 3, ies[seed % 3], 5))
     return design, tc
 
 
@@ -90,17 +103,33 @@ def run(ctx):
         "Read examines at most len(ids) elements (dropped ones included), as the interface comment 'batch <= id list' allows",
     ]
     design, tc = plan(ctx.tier, ctx.seed)
-    for cfg in design:
-        res = queue_lib.design_check(ctx, cfg)
-        vlib.log("[C10] design-level %-22s states=%d transitions=%d depth=%d %.1fs" % (
-            queue_lib.cfg_name(cfg), res.distinct, res.generated, res.depth, res.wall))
+    ctx.go_build(["./cmd/queuemem"])
     best = {}
     counts = {}
-    for cfg in tc:
-        summary, divs = queue_lib.run_pack(ctx, cfg)
-        vlib.log("[C10] replay %-22s states=%d transitions=%d divergent=%d skipped(prefix diverged)=%d %.1fs" % (
-            queue_lib.cfg_name(cfg), ctx.cov["packs"][-1]["states"], summary["n"], summary["divergences"],
-            summary.get("tainted_prefix", 0), ctx.cov["packs"][-1]["wall_s"]))
+    # two pipelines at a time (TLC with 8 workers each, plus the replayer); the big configurations first
+    tc.sort(key=lambda c: (-c["nmsg"], -c["max"]))
+    tasks = [("tc", c) for c in tc[:1]] + [("design", c) for c in design] + [("tc", c) for c in tc[1:]]
+
+    def work(task):
+        kind, cfg = task
+        if kind == "design":
+            return kind, cfg, queue_lib.design_check(ctx, cfg)
+        return kind, cfg, queue_lib.run_pack(ctx, cfg)
+
+    from concurrent.futures import ThreadPoolExecutor
+    with ThreadPoolExecutor(max_workers=2) as ex:
+        done = list(ex.map(work, tasks))
+    results = []
+    for kind, cfg, r in done:
+        if kind == "design":
+            vlib.log("[C10] design-level %-24s states=%d transitions=%d depth=%d %.1fs" % (
+                queue_lib.cfg_name(cfg), r.distinct, r.generated, r.depth, r.wall))
+        else:
+            results.append((cfg, r))
+    for cfg, (summary, divs, rec) in results:
+        vlib.log("[C10] replay %-24s states=%d transitions=%d divergent=%d skipped(prefix diverged)=%d %.1fs" % (
+            queue_lib.cfg_name(cfg), rec["states"], summary["n"], summary["divergences"],
+            summary.get("tainted_prefix", 0), rec["wall_s"]))
         for k, v in summary["counters"].items():
             if k.startswith("div:"):
                 counts[k[4:]] = counts.get(k[4:], 0) + v
